@@ -32,7 +32,7 @@ theorem parseValue_ser (v : J) (hv : v.WF) (lvl : Nat) (rest : Txt) (f : Nat)
   | .bool true, f+1 => simp [serRaw, parseValue, stripPre, litTrue]
   | .bool false, f+1 => simp [serRaw, parseValue, stripPre, litFalse]
   | .int z, f+1 =>
-    obtain ⟨h1, h2⟩ := parseNumTok_serInt z
+    obtain ⟨h1, h2⟩ := parseNumTok_serInt z hv
     simp only [serRaw]
     exact parseValue_num _ _ h2 h1 rest ht f
   | .flt t, f+1 =>
